@@ -26,7 +26,7 @@ func init() {
 			runLock(c, "C11-LRU")
 			runGlobalMapAlias(c, "C11-GLOBAL")
 			base(c, "ALIAS", "LRU")
-			importRules(c, "C08", runC08, "C11-CACHE", "entries of the shared type cache are complete when published and never written afterwards (rules C08-PUBLISH, C08-COPY): concurrent validations of one type read the same immutable entry", 2, ruleIn("C08-PUBLISH", "C08-COPY"))
+			importRules(c, "C08", runC08, "C11-CACHE", "entries of the shared type cache are complete when published, never written afterwards, and stored under everything they were computed from (rules C08-PUBLISH, C08-COPY, C08-KEY): concurrent validations of one type read the same immutable entry, and two concurrent callers that asked for different tag names never share one — otherwise whoever fills the cold entry first decides the rules of the other", 3, ruleIn("C08-PUBLISH", "C08-COPY", "C08-KEY"))
 		},
 	})
 	register(&PropDef{
@@ -1021,6 +1021,124 @@ func runC12Input(c *Ctx) {
 				}
 			}
 		}
+	}
+	// a map handed in by the caller (rule set, function table) and kept BY REFERENCE in a validator field
+	// must never be written through that field: `v.validFn = fnMap` next to `v.validFn[name] = fn`
+	// makes every later registration (also the library's own) land in the caller's map
+	if sp := p.Pkg("valid"); sp != nil {
+		type fkey struct {
+			owner *types.Named
+			idx   int
+		}
+		adopted := map[fkey]string{}
+		written := map[fkey]string{}
+		adoptedAPI := map[fkey]bool{} // adoption reachable from an exported method of a validator (fluent API)
+		writtenAPI := map[fkey]string{}
+		writtenValid := map[fkey]string{}
+		viaAPI := map[*ssa.Function]bool{}
+		for _, fn := range p.Funcs {
+			if fn.Pkg == sp && fn.Signature.Recv() != nil && fn.Object() != nil && fn.Object().Exported() && fn.Name() != "Valid" {
+				for f := range reachableFrom(fn) {
+					viaAPI[f] = true
+				}
+			}
+		}
+		fieldOf := func(v ssa.Value) (fkey, bool) {
+			fa, ok := v.(*ssa.FieldAddr)
+			if !ok {
+				return fkey{}, false
+			}
+			n := namedOf(fa.X.Type())
+			if n == nil || n.Obj().Pkg() == nil || n.Obj().Pkg().Path() != sp.Pkg.Path() {
+				return fkey{}, false
+			}
+			return fkey{n, fa.Field}, true
+		}
+		var fromParam func(v ssa.Value, d int) bool
+		fromParam = func(v ssa.Value, d int) bool {
+			if d > 5 {
+				return false
+			}
+			switch x := v.(type) {
+			case *ssa.Parameter:
+				_, isMap := x.Type().Underlying().(*types.Map)
+				return isMap
+			case *ssa.Phi:
+				for _, e := range x.Edges {
+					if fromParam(e, d+1) {
+						return true
+					}
+				}
+			case *ssa.ChangeType:
+				return fromParam(x.X, d+1)
+			}
+			return false
+		}
+		for _, fn := range p.Funcs {
+			if fn.Pkg != sp {
+				continue
+			}
+			for _, b := range fn.Blocks {
+				for _, ins := range b.Instrs {
+					switch x := ins.(type) {
+					case *ssa.Store:
+						if k, ok := fieldOf(x.Addr); ok && fromParam(x.Val, 0) {
+							if _, had := adopted[k]; !had {
+								adopted[k] = fnName(fn) + " at " + p.Pos(x.Pos())
+							}
+							if viaAPI[fn] {
+								adoptedAPI[k] = true
+							}
+						}
+					case *ssa.MapUpdate:
+						if ld, ok := x.Map.(*ssa.UnOp); ok && ld.Op == token.MUL {
+							if k, ok := fieldOf(ld.X); ok {
+								if _, had := written[k]; !had {
+									written[k] = fnName(fn) + " at " + p.Pos(x.Pos())
+								}
+								if fromValid[fn] {
+									writtenValid[k] = fnName(fn) + " at " + p.Pos(x.Pos()) + ", on a validation path"
+								}
+								if viaAPI[fn] {
+									writtenAPI[k] = fnName(fn) + " at " + p.Pos(x.Pos()) + ", reachable through the validator's exported methods"
+								}
+							}
+						}
+					case ssa.CallInstruction:
+						cc := x.Common()
+						if calleeName(cc) == "builtin.delete" && len(cc.Args) > 0 {
+							if ld, ok := cc.Args[0].(*ssa.UnOp); ok && ld.Op == token.MUL {
+								if k, ok := fieldOf(ld.X); ok {
+									if _, had := written[k]; !had {
+										written[k] = fnName(fn) + " at " + p.Pos(instrPos(ins))
+									}
+									if fromValid[fn] {
+										writtenValid[k] = fnName(fn) + " at " + p.Pos(instrPos(ins)) + ", on a validation path"
+									}
+									if viaAPI[fn] {
+										writtenAPI[k] = fnName(fn) + " at " + p.Pos(instrPos(ins)) + ", reachable through the validator's exported methods"
+									}
+								}
+							}
+						}
+					}
+				}
+			}
+		}
+		var al []string
+		for k, where := range adopted {
+			w, ok := writtenValid[k]
+			if !ok && adoptedAPI[k] {
+				w, ok = writtenAPI[k]
+			}
+			if ok {
+				st := k.owner.Underlying().(*types.Struct)
+				al = append(al, "field "+k.owner.Obj().Name()+"."+st.Field(k.idx).Name()+" keeps a map parameter by reference ("+where+") and the library writes entries through that field ("+w+"): the caller's own map is modified, so a later call that reuses it validates with different rules/functions")
+			}
+		}
+		sort.Strings(al)
+		c.Sites += len(adopted)
+		c.Check(len(al) == 0, "C12-INPUT", "valid", "caller-map-by-reference", token.NoPos, fmt.Sprintf("%d fields keep a caller's map by reference, none of them is written through afterwards — on a validation path, or through the exported methods when the adoption is reachable from them (map fields written anywhere: %d)", len(adopted), len(written)), strings.Join(al, "; "))
 	}
 	sort.Strings(rm)
 	c.Check(len(rm) == 0, "C12-INPUT", "valid", "rule-map-readonly", token.NoPos, fmt.Sprintf("%d functions reachable from Valid, none writes a rule map", len(fromValid)), strings.Join(rm, "; "))
